@@ -1200,7 +1200,10 @@ next:
 	}
 	iter.index.bucketLk.RUnlock()
 
+	// The pools are written to under the bucket lock.
+	iter.index.bucketLk.RLock()
 	data, cached := iter.index.readCached(iter.bucketIndex)
+	iter.index.bucketLk.RUnlock()
 	if cached {
 		// Add the size prefix to the record data.
 		newData := make([]byte, len(data)+sizePrefixSize)
